@@ -71,6 +71,10 @@ pub fn rule_pool(lang: LangId) -> Vec<RuleTxt> {
             r("g3-swap", "(g3 $x $y $z)", "(g3 $y $x $z)"),
             r("g3-to-f2", "(p (g3 $z $x $y) ?t)", "(p (f2 $y $z) ?t)"),
             r("g3-drop", "(g3 $x $y $z)", "(f2 $x $y)"),
+            r("t3-rot", "(t3 ?a ?b ?c)", "(t3 ?c ?a ?b)"),
+            r("t3-dup", "(t3 ?a ?b ?a)", "(p ?a ?b)"),
+            r("q2-swap", "(q2 $x (q2 $y ?a))", "(q2 $y (q2 $x ?a))"),
+            r("q2-drop", "(q2 $x ?a)", "(w ?a)"),
         ],
         LangId::Lambda => vec![
             rs("beta", "(app (lam $x ?b) ?e)", "?b[(var $x) := ?e]"),
